@@ -225,6 +225,10 @@ def step : List String → String
     match bytesTok p, natTok n with
     | some p, some n => showPy showMeta (fromFileFallback (PyFile.ofBytes p) n)
     | _, _ => "bad-op"
+  | ["ffx", p, n, _tag, _nonce, _stub] =>   -- the container behind a shellcode stub of 0..1023 bytes: the decoded view is the same
+    match bytesTok p, natTok n with
+    | some p, some n => showPy showMeta (fromFileFallback (PyFile.ofBytes p) n)
+    | _, _ => "bad-op"
   | ["cands", d, n] =>
     match bytesTok d, natTok n with
     | some d, some n =>
